@@ -47,6 +47,7 @@ type RTConn struct {
 	Index int
 	P     *Peer
 	Raw   *fakeconn.Conn
+	Cli   *fakeconn.Conn // the client's end (fault plan, counters)
 	Err   error
 }
 
@@ -64,10 +65,21 @@ type RTEnv struct {
 	// OnFrame, if set before the first dial, is called from each connection's reader goroutine for every
 	// frame the scripted server receives (after the automatic PING reply).
 	OnFrame func(rc *RTConn, f Frame)
+	// CapToServer / CapToClient are the transport buffer sizes of every connection dialled (0: 4 MiB).
+	CapToServer, CapToClient int
 }
 
 func NewRTEnv(caseID string, opts http2.ClientOpts, serverSettings []wire.Setting) (*RTEnv, error) {
+	return NewRTEnvWith(caseID, opts, serverSettings, nil)
+}
+
+// NewRTEnvWith lets the caller set fields (OnFrame, capacities, FailDial) before the first connection is dialled
+// (ConfigureClient dials one at once).
+func NewRTEnvWith(caseID string, opts http2.ClientOpts, serverSettings []wire.Setting, prepare func(*RTEnv)) (*RTEnv, error) {
 	e := &RTEnv{CaseID: caseID, Settings: serverSettings}
+	if prepare != nil {
+		prepare(e)
+	}
 	cert := serverCert()
 	e.HC = &fasthttp.HostClient{Addr: "h2v.example:443", IsTLS: true, TLSConfig: &tls.Config{InsecureSkipVerify: true}, MaxIdemponentCallAttempts: 1}
 	e.HC.Dial = func(addr string) (net.Conn, error) {
@@ -79,8 +91,15 @@ func NewRTEnv(caseID string, opts http2.ClientOpts, serverSettings []wire.Settin
 		if fd != 0 && n >= fd {
 			return nil, &net.OpError{Op: "dial", Net: "fake", Err: net.ErrClosed}
 		}
-		cli, srv := fakeconn.Pair(4<<20, 4<<20)
-		rc := &RTConn{Index: n - 1, Raw: srv}
+		capS, capC := e.CapToServer, e.CapToClient
+		if capS == 0 {
+			capS = 4 << 20
+		}
+		if capC == 0 {
+			capC = 4 << 20
+		}
+		cli, srv := fakeconn.Pair(capS, capC)
+		rc := &RTConn{Index: n - 1, Raw: srv, Cli: cli}
 		e.mu.Lock()
 		e.conns = append(e.conns, rc)
 		e.mu.Unlock()
